@@ -38,7 +38,8 @@ def run(tier):
             root = tsparse.strip(tsparse.parse_type(info["name"]["ok"]))
         except tsparse.TsSyntaxError:
             continue
-        samples = [s["ok"] for s in obs[u.name]["samples"] if "ok" in s]
+        # (a type with a value serde refuses to serialize is outside "the fragment on which serde round-trips its own output")
+        samples = [s["ok"] for s in obs[u.name]["samples"] if "ok" in s] if all("ok" in s for s in obs[u.name]["samples"]) else []
         progs.append((u, decl, root, samples))
         for k, s in enumerate(samples):
             reqs.append(("rt-%s-%d" % (u.name, k), u.name, s))
